@@ -19,7 +19,15 @@ from typing import Any
 
 import yaml
 
-from octave_mcp.core.ast_nodes import Assignment, Block, Document, InlineMap, ListValue, LiteralZoneValue
+from octave_mcp.core.ast_nodes import (
+    Assignment,
+    Block,
+    Document,
+    HolographicValue,
+    InlineMap,
+    ListValue,
+    LiteralZoneValue,
+)
 from octave_mcp.core.gbnf_compiler import GBNFCompiler, compile_gbnf_from_meta
 from octave_mcp.core.parser import parse
 from octave_mcp.core.projector import project
@@ -72,6 +80,10 @@ def _convert_value(value: Any) -> Any:
             "info_tag": value.info_tag,
             "fence_marker": value.fence_marker,
         }
+    elif isinstance(value, HolographicValue):
+        # Export holographic patterns as their source text (same rendering as the emitter).
+        # I3: no Python object leaks into JSON/YAML output; json.dumps cannot serialize the AST node.
+        return value.raw_pattern
     elif isinstance(value, ListValue):
         return [_convert_value(item) for item in value.items]
     elif isinstance(value, InlineMap):
